@@ -12,12 +12,14 @@ def number(tree):
     nodes = []
 
     def w(n, is_func=False):
+        # the callee expression itself cannot be wrapped (MetaData(f, d)(x) is not a query), but the receiver of a
+        # method call can: MetaData(seq, d).Select(...)
         if isinstance(n, ast.expr) and not is_func and not isinstance(n, ast.Constant):
             n._pos = len(nodes)
             nodes.append(n)
         for f, v in ast.iter_fields(n):
             if isinstance(v, ast.AST):
-                w(v, isinstance(n, ast.Call) and f == "func")
+                w(v, isinstance(n, ast.Call) and f == "func" and not (is_func and False))
             elif isinstance(v, list):
                 for x in v:
                     if isinstance(x, ast.AST):
@@ -68,6 +70,9 @@ SKELETONS_EXTRA = [
     "Select(ds, lambda e: {'k': e.a, 'l': (e.b, e.jets)})",
     "Where(Select(ds, lambda e: e.jets), lambda js: Count(Where(js, lambda j: j.pt > 1)) > 1)",
     "f(ds, g(ds2, h(x)))",
+    "ds.Select(lambda e: e.jets().Where(lambda j: j.pt() > 1).Count())",
+    "ds.SelectMany(lambda e: e.jets()).Select(lambda j: j.pt(k=e.a))",
+    "f(x=ds, y=g(z=ds2))",
 ]
 
 
@@ -90,6 +95,9 @@ class C15(Check):
         return [Space(f"skeletons<={hi} wrappers<={K}", {"skeleton_size": hi, "max_wrappers": K},
                       (lambda hi=hi, K=K: [(s, K) for s in
                                             qspaces.enumerate_sources("fusionx", 5, hi, ("e",)) + SKELETONS_EXTRA]),
+                      runner="run_skel"),
+                Space(f"small skeletons wrappers<={K + 1}", {"skeleton_size": 5, "max_wrappers": K + 1},
+                      (lambda K=K: [(s, K + 1) for s in qspaces.enumerate_sources("fusionx", 5, 5, ("e",))[:12] + SKELETONS_EXTRA[4:6]]),
                       runner="run_skel")]
 
     def run_skel(self, payload):
